@@ -63,14 +63,14 @@ func (p *perSessionHandler) HandleInputRegisters(r *modbus.InputRegistersRequest
 
 func init() {
 	checks["C11"] = func(tier string, seed uint64, res *Result) error {
-		res.Rule = "K real TCP connections to one real server, all using the same transaction ids, distinct unit ids; requests interleaved by a seeded scheduler; one connection stalled mid-frame and one whose handler call is blocked during the whole run; for every connection the response bytes and the handler calls attributed to it (by ClientAddr) are compared with a single-session run of the Lean server model on that connection's byte stream; every response must arrive on the connection that sent the request with its transaction and unit id; healthy connections must be answered while the others stall; distinct = (round, connection role, request class)"
+		res.Rule = "K real TCP connections to one real server, all using the same transaction ids, distinct unit ids; requests interleaved by a seeded scheduler; one connection stalled mid-frame and one whose handler call (a read or a write, in turn) is blocked during the whole run; a connection arriving meanwhile; for every connection the response bytes and the handler calls attributed to it (by ClientAddr) are compared with a single-session run of the Lean server model on that connection's byte stream; every response must arrive on the connection that sent the request with its transaction and unit id; healthy connections must be answered while the others stall; distinct = (round, connection role, request class)"
 		r := NewRng(seed).Fork(11000)
 		var cases []cexCase
 		rounds := scale(tier, 6, 60)
 		for round := 0; round < rounds; round++ {
 			K := 3 + r.Intn(6)
 			h := &perSessionHandler{sessions: map[string]*scriptedHandler{}, events: map[string]*[]string{}, block: make(chan struct{}), roles: map[string]string{}}
-			srv, err := modbus.NewServer(&modbus.ServerConfiguration{URL: "tcp://127.0.0.1:0", Timeout: 3 * time.Second, MaxClients: uint(K + 2), Logger: quietLog}, h)
+			srv, err := modbus.NewServer(&modbus.ServerConfiguration{URL: "tcp://127.0.0.1:0", Timeout: 3 * time.Second, MaxClients: uint(K + 3), Logger: quietLog}, h)
 			if err != nil {
 				return err
 			}
@@ -93,7 +93,19 @@ func init() {
 			stall := mbapFrame(0x0101, 0, byte(K+1), 3, append(be16b(5), be16b(2)...))
 			conns[K].Write(stall[:7])
 			sent[K] = append(sent[K], stall[:7]...)
-			blocked := mbapFrame(0x0101, 0, byte(K+2), 3, append(be16b(0xbeef), be16b(1)...))
+			// the blocked handler call is a read or a write, in turn (a lock taken around the
+			// dispatch of writes only must show as well)
+			var blocked []byte
+			switch round % 4 {
+			case 0:
+				blocked = mbapFrame(0x0101, 0, byte(K+2), 3, append(be16b(0xbeef), be16b(1)...))
+			case 1:
+				blocked = mbapFrame(0x0101, 0, byte(K+2), 6, append(be16b(0xbeef), 0x12, 0x34))
+			case 2:
+				blocked = mbapFrame(0x0101, 0, byte(K+2), 16, append(append(be16b(0xbeef), be16b(1)...), 2, 0, 1))
+			default:
+				blocked = mbapFrame(0x0101, 0, byte(K+2), 5, append(be16b(0xbeef), 0xff, 0x00))
+			}
 			conns[K+1].Write(blocked)
 			sent[K+1] = append(sent[K+1], blocked...)
 			time.Sleep(2 * time.Millisecond)
@@ -144,6 +156,25 @@ func init() {
 						Note: "a response carries another connection's transaction or unit id"})
 				}
 			}
+			// a connection that ARRIVES while the other handler call is still blocked must be admitted
+			// and served like the others
+			lateAddr := ""
+			if lc, err := net.Dial("tcp", addr); err == nil {
+				lateAddr = lc.LocalAddr().String()
+				t0 := time.Now()
+				lf := mbapFrame(0x0777, 0, 0x63, 3, append(be16b(1), be16b(1)...))
+				lc.Write(lf)
+				lc.SetReadDeadline(time.Now().Add(500 * time.Millisecond))
+				hdr := make([]byte, 7)
+				if _, err := io.ReadFull(lc, hdr); err != nil || hdr[0] != 0x07 || hdr[1] != 0x77 || hdr[6] != 0x63 {
+					res.Add(Finding{Kind: "property", Check: "head-of-line", Line: fmt.Sprintf("round %d K=%d: connection opened while a handler call (request %s) is blocked; request %s", round, K, hx(blocked), hx(lf)),
+						Impl: fmt.Sprintf("header %s err=%v after %v", hx(hdr), err, time.Since(t0)), Expect: "served within 500 ms with its own ids",
+						Note: "a blocked handler call on one connection delayed the admission / service of a new connection"})
+				} else if d := time.Since(t0); d > maxLatency {
+					maxLatency = d
+				}
+				lc.Close()
+			}
 			if maxLatency > 300*time.Millisecond {
 				res.Add(Finding{Kind: "property", Check: "head-of-line", Line: fmt.Sprintf("round %d K=%d", round, K), Impl: fmt.Sprint(maxLatency), Expect: "< 300ms",
 					Note: "a healthy connection was delayed while another connection stalled / its handler was blocked"})
@@ -181,7 +212,7 @@ func init() {
 				}
 			}
 			for a := range h.events {
-				found := false
+				found := a == lateAddr
 				for _, l := range local {
 					if l == a {
 						found = true
